@@ -27,4 +27,37 @@ CLAIMED.update({
         "x every operator and every history of in-place / out-of-place operations to depth 2-3 (simulated to depth 10) is replayed into flodym, "
         "comparing every register and every lookup form with the model after every step, including an array built from a set that is later edited.",
    technique="TLA+ ordered-list state machine MC_DimSets checked with TLC (invariants, laws, action property); behaviours replayed into flodym"),
+ "C03": dict(engine="stocks", ref="6/C03",
+   text="The documented time discretisation and the three stock classes are specified over exact rationals (TimeGrid/Lifetime/Stocks.tla); TLC checks "
+        "Conserves on every (configuration, class, driver) of bounded models and emits all tables; flodym is run on each and compared, the "
+        "conservation clause is evaluated on its own outputs, and check_stock_balance must accept the computed and reject a perturbed stock. "
+        "scipy-based lifetime models enter through relational runs using the TLC-computed interval lengths.",
+   technique="TLA+ rational model of time grid + stock classes checked with TLC (MC_Stocks); every transition replayed into flodym; relational clause evaluation"),
+ "C08": dict(engine="stocks", ref="6/C08",
+   text="For the exact families (fixed, step) and rational quadrature settings TLC computes the whole survival / outflow tables, checks TableValid and the "
+        "tables are compared with flodym's. For the four scipy-based distributions and all ten rules TLC fixes the structure of every cell (age base, "
+        "interval length, cohort, parameter entry by label); the closed-form survival functions and the Gauss-Lobatto rule are evaluated numerically "
+        "by the harness (declared assumption discharge).",
+   technique="TLA+ Lifetime model (exact tables + TableValid by TLC) replayed into flodym; structure vectors + closed forms for transcendental distributions",
+   note="TLC and CommunityModules; Python math.erfc/erf/exp/log and numpy Legendre polynomials for the closed forms and the independent quadrature rules; 1e-9 tolerance"),
+ "C09": dict(engine="stocks", ref="6/C09",
+   text="Prop_C09 (totals, triangularity, cohort share = inflow x dt x survival, cohort conservation, monotonicity) is a TLC-checked invariant of MC_Stocks; "
+        "get_stock_by_cohort / get_outflow_by_cohort of both DSM classes and both solvers are compared with the exact tables; the same clauses are "
+        "evaluated on the implementation for all lifetime models, also after set_prms + recompute.",
+   technique="TLA+ stock model checked with TLC; transitions replayed into flodym; cohort clauses evaluated on relational runs"),
+ "C10": dict(engine="stocks", ref="6/C10",
+   text="The stock-driven model is specified as forward substitution over rationals; TLC checks that it inverts the inflow-driven model (Prop_C10) for every "
+        "driver incl. ones with negative inflow; both solvers are replayed against the exact tables and against each other, plus round trips on all "
+        "lifetime models with first-interval survival >= 0.05.",
+   technique="TLA+ inverse-model invariant checked with TLC (MC_Stocks); transitions replayed into both solvers; relational round trips"),
+ "C16": dict(engine="stocks", ref="6/C16",
+   text="Causality, scaling, label independence, impulse response and calendar-shift invariance are TLC-checked theorems of the model (Prop_C16, ASSUME "
+        "Prop_C16_Shift); every unit impulse of the driver space per configuration is replayed and compared with the exact response; on the "
+        "implementation the relations are evaluated between related runs for all lifetime models.",
+   technique="TLA+ stock model (impulse basis, TLC-checked linearity/causality theorems) replayed into flodym; relational runs"),
+ "C17": dict(engine="stockobject", ref="6/C17",
+   text="StockObject.tla models one stock's inputs, results and lazily cached tables; TLC checks Prop_C17 on the contract and on the invalidating-cache "
+        "algorithm, and REQUIRES a violation on the stale-cache variant (non-vacuity). Every history of depth 4-5 is replayed on real stocks living in "
+        "an MFASystem built from definitions and compared, after every compute, with a freshly built stock holding the same inputs.",
+   technique="TLA+ state machine with L2 cache variable checked with TLC (3 variants); all histories replayed into flodym and compared with fresh objects"),
 })
